@@ -30,7 +30,7 @@ fn main() -> io::Result<()> {
 
     let mut w = csi::io::Writer::new(Vec::new());
     w.write_index(&index)?;
-    let data = w.finish()?;
+    let data = w.into_inner().finish()?;
     let back = csi::io::Reader::new(&data[..]).read_index()?;
     let same = format!("{:?}", back.reference_sequences()) == format!("{:?}", index.reference_sequences());
     println!("read(write(index)) == index: {same}");
